@@ -701,6 +701,7 @@ func init() {
 		registerReplay("C05/path-sessions", func(c pathCase) *fail { c.Life = true; return runPathCase(c, nil) })
 		registerReplay("C05/cuts", func(c cutCase) *fail { return runCutCase(c, nil) })
 		registerReplay("C05/clunk-race", runRaceCase)
+		registerReplay("C05/partial-mask", runPartialMaskCase)
 		registerReplay("C05/faults", func(c faultCase) *fail {
 			if f := runFaultCase(c, nil); f != nil && (lifeSig(f.Sig) || strings.HasPrefix(f.Sig, "harness-")) {
 				return f
@@ -827,6 +828,17 @@ func TestC05(t *testing.T) {
 	})
 
 	// (d) unbinding a fid while an operation on it is inside the backend:
+	// (i) a backend with partial attribute masks
+	rapidCases(h, "partial-mask", env.PerShard(env.Pick(3000, 60000)), func(rt *rapid.T) partialMaskCase {
+		return partialMaskCase{Native: rapid.Bool().Draw(rt, "native"), Reqs: genSessionReqs(rt, 20)}
+	}, func(c partialMaskCase) *fail {
+		h.Case(evid.HashJSON(c), true, "partial-mask")
+		if h.WantSample("partial-mask") {
+			h.Sample("partial-mask", c)
+		}
+		return runPartialMaskCase(c)
+	})
+
 	// (h) connections that end in the middle of schedules the harness owns (engine
 	// of C07): the teardown's Close calls are released one at a time among the
 	// backend calls of the other connections' requests
